@@ -333,6 +333,19 @@ func (app *App) txDeliverer() txDeliverer {
 
 		handler := txCtx.Router.Handler(tx.Type)
 
+		// A proposer is not trusted to have run CheckTx: signatures and the
+		// handler's own validity rules are enforced on the consensus path too.
+		if ok, err := handler.Validate(txCtx, *tx); err != nil || !ok {
+			app.Context.deliver.DiscardTxSession()
+			log := "invalid transaction"
+			if err != nil {
+				log = err.Error()
+			}
+			result := ResponseDeliverTx{Code: CodeNotOK.uint32(), Log: log}
+			app.logger.Detail("Deliver Tx invalid: ", result)
+			return result
+		}
+
 		gas := txCtx.State.ConsumedGas()
 
 		ok, response := handler.ProcessDeliver(txCtx, tx.RawTx)
